@@ -1721,7 +1721,9 @@ func (s *Server) clearExpiredClients(dt int64) {
 
 		if disconnected+int64(expire) < dt {
 			s.hooks.OnClientExpired(client)
-			s.Clients.Delete(id) // [MQTT-4.1.0-2]
+			client.ClearInflights()
+			s.UnsubscribeClient(client) // the session has ended; its subscriptions must not outlive it
+			s.Clients.Delete(id)        // [MQTT-4.1.0-2]
 		}
 	}
 }
